@@ -1503,6 +1503,17 @@ def _peer_compare(res, op, im, mo):
                     return "elapsed time differs (impl %s ms, model %s ms)" % (af[5], bf[1])
                 if len(bf) > 3 and bf[3] == "1" and af[1] in ("-", "0"):
                     return "CROSSTALK: the update was granted %s although its own account-balance and rating answers arrived in time" % af[1]
+        elif a.startswith("f="):
+            if a == "f=skipped" or b == "f=skipped":
+                if a != b:
+                    return "%s / %s" % (a, b)
+                continue
+            af, bf = a[2:].split(":"), b[2:].split(":")
+            # impl: status ms done pending ; model: ms done
+            if af[2] != bf[1]:
+                return "completion of the final report differs (impl done=%s, model done=%s)" % (af[2], bf[1])
+            if af[2] == "1" and abs(int(af[1]) - int(bf[0])) > PEER_TOL_MS:
+                return "elapsed time of the final report differs (impl %s ms, model %s ms)" % (af[1], bf[0])
         elif a.startswith("n="):
             if a != b:
                 return "%s / %s" % (a, b)
@@ -1529,6 +1540,8 @@ def _explore_peer(ctx, res, replay_ops, which):
         for x in steps:
             if x[0] == "D":
                 res.dist["answers-delivered-%s-times" % x[1:]] += 1
+            if x[0] == "F":
+                res.dist["final-report"] += 1
             if x[0] in "AR":
                 d = int(x[1:])
                 res.dist["%s-delay:%s" % (x[0], "prompt" if d < 5000 else "late" if d < 20000 else "lost")] += 1
@@ -1551,6 +1564,20 @@ def _explore_peer(ctx, res, replay_ops, which):
                     # money was reserved for this update (its own account-balance answer), yet the rating answer it
                     # acted upon allowed nothing: that is the answer to the unit-cost enquiry (quota 0), not to its own request
                     bad = "an update that reserved %s was granted 0 units: it acted upon the rating answer to another request" % f[3]
+                elif len(f) > 7 and int(f[7]) > 0 and int(f[5]) < 4000:
+                    bad = ("an update returned after %s ms while %s account-balance request(s) it had made were still unanswered (no time-out "
+                           "had passed): the request is not tied to the operation, its answer can only reach a later request" % (f[5], f[7]))
+                elif f[0][:1] == "5":
+                    bad = "an update was answered %s" % f[0]
+            if which == "C19" and tok.startswith("f=") and tok != "f=skipped":
+                f = tok[2:].split(":")
+                if f[2] != "1":
+                    bad = "a final report did not complete within 14 s (subscriber blocked)"
+                elif int(f[3]) > 0 and int(f[1]) < 4000:
+                    bad = ("a final report returned after %s ms while the account-balance request that settles it was still unanswered (no "
+                           "time-out had passed): the request is not tied to the operation, its answer can only reach a later request" % f[1])
+                elif f[0][:1] == "5":
+                    bad = "a final report was answered %s" % f[0]
             if which == "C19" and tok.startswith("n=") and tok.endswith(":0"):
                 bad = "an update did not complete"
             if which == "C18" and tok.startswith("c="):
